@@ -26,12 +26,22 @@ def tasks(tier, seed):
             ts.append({"id": f"step:{cls}[elli,{cone},N={N}]", "fn": "induct_task",
                        "args": {"cls_name": cls, "ctype": ct, "cone": cone, "W": W.tolist(), "N": N, "prop": "C01", "tier": tier},
                        "weight": 10 ** (N - 2)})
+        # two consecutive rounds from the initial state (fresh regions per round): reachable histories
+        for cls, ct in (("PaVeBa", None), ("PaVeBaGP", "hyperellipsoid")):
+            if tier == "quick" and cone not in ("orthant2", "theta120"):
+                continue
+            ts.append({"id": f"hist:{cls}[elli,{cone},N=2,rounds=2]", "fn": "induct_task",
+                       "args": {"cls_name": cls, "ctype": ct, "cone": cone, "W": W.tolist(), "N": 2, "prop": "C01", "tier": tier,
+                                "base_only": True, "rounds": 2}, "weight": 20})
         if K != m:
             continue   # rectangle variants raise for K != m (C06 known finding)
         a = np.asarray(_alpha_for(W), dtype=float).flatten()
         ratio = float(np.max((W @ a) / a))
         for cls in ("PaVeBaGP", "PaVeBaPartialGP"):
             if ratio <= 1 + 1e-6:
+                ts.append({"id": f"hist:{cls}[rect,{cone},N=2,rounds=2]", "fn": "induct_task",
+                           "args": {"cls_name": cls, "ctype": "hyperrectangle", "cone": cone, "W": W.tolist(), "N": 2,
+                                    "prop": "C01", "tier": tier, "base_only": True, "rounds": 2}, "weight": 20})
                 ts.append({"id": f"step:{cls}[rect,{cone},N={N}]", "fn": "induct_task",
                            "args": {"cls_name": cls, "ctype": "hyperrectangle", "cone": cone, "W": W.tolist(), "N": N,
                                     "prop": "C01", "tier": tier}, "weight": 10 ** (N - 2)})
